@@ -1,9 +1,102 @@
 import NibabelModel.Model.C02
 import Driver.Util
-/-! Line-protocol driver for C02: `C02 <op> <args...>` -> one observable line. -/
+/-! Line-protocol driver for C02: `C02 <op> <args...>` -> one observable line.
+
+  save <cls> <in> <out> <vals>                    cls ∈ nifti|spm|analyze|mgh ; in = f11|f24|f53|i<min>:<max> ;
+                                                  out = <omin>:<omax> ; vals = comma list of p/q | p | nan | inf | -inf
+        -> `ok <s> <b> [raw,...]` | `ERR:<kind>`
+  a2f <in> <out> <s> <b> <mn|_> <mx|_> <n2z> <vals>   array_to_file with free stored (s, b)
+        -> `ok [raw,...]` | `ERR:<kind>`
+  var <cls> <in> <out> <vals>                     writer decisions only -> `ok <s=1?> <b=0?> <sign s>` | `ERR:<kind>`
+  shr <p> <out>                                   shared_range -> `<mn> <mx>`
+  fe <p> <v>                                      floor_exact / ceil_exact -> `<floor> <ceil>`
+-/
 namespace Nb.Drv.C02
+open Nb Nb.C02
+
+def parseRat? (s : String) : Option Rat :=
+  match s.splitOn "/" with
+  | [a] => a.toInt?.map fun n => (n : Rat)
+  | [a, b] => match a.toInt?, b.toNat? with
+              | some n, some d => if d = 0 then none else some (mkRat n d)
+              | _, _ => none
+  | _ => none
+
+def parseOptRat? (s : String) : Option (Option Rat) :=
+  if s = "_" then some none else (parseRat? s).map some
+
+def parseVal? (s : String) : Option Val :=
+  if s = "nan" then some .nan
+  else if s = "inf" then some .pinf
+  else if s = "-inf" then some .ninf
+  else (parseRat? s).map Val.fin
+
+def parseVals? (s : String) : Option (List Val) :=
+  if s = "-" then some [] else (s.splitOn ",").mapM parseVal?
+
+def parseRange? (s : String) : Option (Int × Int) :=
+  match s.splitOn ":" with
+  | [a, b] => match a.toInt?, b.toInt? with
+              | some x, some y => some (x, y)
+              | _, _ => none
+  | _ => none
+
+def parseIn? (s : String) : Option InT :=
+  if s = "f11" then some (.flt 11)
+  else if s = "f24" then some (.flt 24)
+  else if s = "f53" then some (.flt 53)
+  else if s.startsWith "i" then (parseRange? (s.drop 1).toString).map fun (a, b) => .int a b
+  else none
+
+def parseOut? (s : String) : Option OutT := (parseRange? s).map fun (a, b) => ⟨a, b⟩
+
+def parseCls? (s : String) : Option Cls :=
+  if s = "nifti" then some .nifti else if s = "spm" then some .spm
+  else if s = "analyze" then some .analyze else if s = "mgh" then some .mgh else none
+
+def showRat (r : Rat) : String :=
+  if r.den = 1 then toString r.num else toString r.num ++ "/" ++ toString r.den
+
+def showErr : Err → String
+  | .writer => "ERR:WriterError"
+  | .headerData => "ERR:HeaderDataError"
+  | .headerType => "ERR:HeaderTypeError"
+  | .value => "ERR:ValueError"
+  | .castNaN => "ERR:CastNaN"
 
 def handle : List String → String
+  | ["save", cls, i, o, vals] =>
+      match parseCls? cls, parseIn? i, parseOut? o, parseVals? vals with
+      | some c, some i, some o, some vs =>
+          match save c id 24 i o vs with
+          | .ok (s, b, raw) => "ok " ++ showRat s ++ " " ++ showRat b ++ " " ++ showList raw
+          | .error e => showErr e
+      | _, _, _, _ => "bad-op"
+  | ["var", cls, i, o, vals] =>
+      -- decision-level observable (robust to float32 rounding): slope == 1 ?, inter == 0 ?, sign of the slope
+      match parseCls? cls, parseIn? i, parseOut? o, parseVals? vals with
+      | some c, some i, some o, some vs =>
+          match save c id 24 i o vs with
+          | .ok (s, b, _) => "ok " ++ (if s = 1 then "1" else "0") ++ " " ++ (if b = 0 then "1" else "0") ++ " " ++
+                              (if 0 < s then "+" else "-")
+          | .error e => showErr e
+      | _, _, _, _ => "bad-op"
+  | ["a2f", i, o, s, b, mn, mx, n2z, vals] =>
+      match parseIn? i, parseOut? o, parseRat? s, parseRat? b, parseOptRat? mn, parseOptRat? mx,
+            (if n2z = "1" then some true else if n2z = "0" then some false else none), parseVals? vals with
+      | some i, some o, some s, some b, some mn, some mx, some n2z, some vs =>
+          match arrayToFile i o s b mn mx n2z vs with
+          | .ok raw => "ok " ++ showList raw
+          | .error e => showErr e
+      | _, _, _, _, _, _, _, _ => "bad-op"
+  | ["shr", p, o] =>
+      match p.toNat?, parseOut? o with
+      | some p, some o => let (a, b) := sharedRange p o; toString a ++ " " ++ toString b
+      | _, _ => "bad-op"
+  | ["fe", p, v] =>
+      match p.toNat?, v.toInt? with
+      | some p, some v => toString (floorExact p v) ++ " " ++ toString (ceilExact p v)
+      | _, _ => "bad-op"
   | _ => "bad-op"
 
 end Nb.Drv.C02
